@@ -14,16 +14,21 @@ CONSTANTS MaxEx,
 Methods == {"GET", "HEAD", "POST", "PUT", "DELETE", "OPTIONS", "PURGE"}
 BodyMethods == {"POST", "PUT", "DELETE", "PURGE"}
 \* slow: the body is sent with a pause longer than the read-header limit (which must not apply to bodies)
+\* refused: the request names a denied host and is answered by the proxy itself (403) - its body is never read by any
+\* round trip, yet it must be consumed so that the next request on the connection is the client's next request
 Reqs == { r \in [m : Methods, ver : {10, 11}, copt : {"none", "close", "ka"}, body : {"none", "cl", "chunked"},
-                 sz : 1..3, ae : {"absent", "gzip", "br"}, slow : BOOLEAN] :
-            /\ (r.slow => r.body # "none" /\ r.sz > 1)
+                 sz : 1..3, ae : {"absent", "gzip", "br"}, slow : BOOLEAN, refused : BOOLEAN] :
+            /\ (r.slow => r.body # "none" /\ r.sz > 1 /\ ~r.refused)
+            /\ (r.refused => r.body # "none" /\ r.m # "HEAD")
             /\ (r.body # "none" => r.m \in BodyMethods)
             /\ (r.m \in {"POST", "PUT"} => r.body # "none")
             /\ (r.ver = 10 => r.body # "chunked")
             /\ (r.body = "none" => r.sz = 1) }
 \* what the origin sends back
 Ups == { u \in [st : {200, 201, 204, 304, 404, 500, 503, 299}, fr : {"cl", "chunked", "eof"}, tr : BOOLEAN, gz : BOOLEAN,
-                sse : BOOLEAN, sz : 1..3, hop : BOOLEAN, cookies : BOOLEAN, ver : {10, 11}] :
+                sse : BOOLEAN, sz : 1..3, hop : BOOLEAN, cookies : BOOLEAN, ver : {10, 11},
+                early : BOOLEAN] :     \* the origin answers and hangs up without reading the request body
+            /\ (u.early => ~u.sse /\ ~u.tr)
             /\ (u.tr => u.fr = "chunked")                       \* trailers need the chunked coding
             /\ (u.ver = 10 => u.fr # "chunked" /\ ~u.hop)        \* an HTTP/1.0 origin: Content-Length or close, then it hangs up
             /\ (u.sse => u.st = 200 /\ u.fr \in {"chunked", "eof"} /\ ~u.gz /\ ~u.tr)
@@ -40,7 +45,8 @@ Undone(r, u) == u.gz /\ Solicited(r)
 \* framing as the proxy must produce it: head terminated?, body framing, connection closes afterwards
 Wire(r, u, closing) ==
   LET close == closing \/ ReqClose(r) IN
-  IF HeaderOnly(r, u) THEN
+  IF r.refused THEN [head |-> "ok", fr |-> "cl", close |-> close]          \* the proxy's own 403
+  ELSE IF HeaderOnly(r, u) THEN
        [head |-> IF u.tr /\ BugTrailerCRLF THEN "unterminated" ELSE "ok", fr |-> "none", close |-> close]
   ELSE IF Undone(r, u) /\ u.fr # "chunked" THEN          \* length no longer known
        IF BugUncompressed THEN [head |-> "ok", fr |-> "raw", close |-> close]
@@ -53,7 +59,7 @@ Wire(r, u, closing) ==
 VARIABLES k, phase, req, wire, alive, closing, nRead, nWrote, inflight
 vars == <<k, phase, req, wire, alive, closing, nRead, nWrote, inflight>>
 
-NoReq == [m |-> "GET", ver |-> 11, copt |-> "none", body |-> "none", sz |-> 1, ae |-> "absent", slow |-> FALSE]
+NoReq == [m |-> "GET", ver |-> 11, copt |-> "none", body |-> "none", sz |-> 1, ae |-> "absent", slow |-> FALSE, refused |-> FALSE]
 Init == /\ k = 0 /\ phase = "idle" /\ req = NoReq /\ wire = <<>> /\ alive = TRUE /\ closing = FALSE
         /\ nRead = 0 /\ nWrote = 0 /\ inflight = 0
 
@@ -75,7 +81,7 @@ Respond(u, wfault) ==
   /\ nWrote' = nWrote + 1 /\ inflight' = inflight - 1 /\ phase' = "idle"
   /\ UNCHANGED <<k, req, closing, nRead>>
 \* a smaller response alphabet keeps the exhaustive run small; the generator below uses all of Ups
-McUps == {u \in Ups : u.st \in {200, 204} /\ ~u.sse /\ ~u.hop /\ ~u.cookies /\ u.sz = (IF u.gz THEN 2 ELSE 1)}
+McUps == {u \in Ups : u.st \in {200, 204} /\ ~u.sse /\ ~u.hop /\ ~u.cookies /\ u.sz = (IF u.gz THEN 2 ELSE 1) /\ ~u.early}
 McReqs == {r \in Reqs : r.m \in {"GET", "HEAD", "POST"} /\ r.sz = 1 /\ r.ae # "br"}
 Next == Shutdown \/ Drop \/ (\E r \in McReqs : Read(r)) \/ (\E u \in McUps, wf \in BOOLEAN : Respond(u, wf))
 Spec == Init /\ [][Next]_vars
